@@ -39,6 +39,8 @@ def gen_cases(run):
         if not cfgs and rng.random() < 0.8:
             cfgs = H.gen_configs(rng, g, max_cfg=5)
         spec = {"kind": "stream", "g": g, "budget": H.gen_budget(rng, g), "cfgs": cfgs, "seed": rng.randrange(10 ** 6)}
+        if cfgs and rng.random() < 0.25:
+            spec["pre_batch_size"] = rng.randint(1, g["N"])  # config objects shared with an earlier scheduler of another batch size
         if not cfgs:
             spec["_trivial"] = True
         yield spec
@@ -82,9 +84,11 @@ def run_case(run, spec):
     g, budget, cfgs = spec["g"], spec["budget"], spec["cfgs"]
     (bkind, bval), = budget.items()
     M = g["M"]
-    ok, built = call_real(run, lambda: H.build_real(g, budget, cfgs, spec["seed"], "rec"), crash_key="ctor-crash", what="InterleavedSampler(...)")
+    ok, built = call_real(run, lambda: H.build_real(g, budget, cfgs, spec["seed"], "rec", pre_batch_size=spec.get("pre_batch_size")), crash_key="ctor-crash", what="InterleavedSampler(...)")
     if not ok:
         return
+    if spec.get("pre_batch_size"):
+        run.count("cases_with_reused_config_objects")
     sampler, main, sides, events = built
     mdl = H.model(g, budget, cfgs, lambda j, e: H.rec_draw(g["M"], g["N"], spec["seed"], e))
     cap = len(mdl["events"]) + 3 * (g["B"] + sum(c["n"] for c in cfgs)) + 10
